@@ -13,11 +13,13 @@ import (
 	"sort"
 	"strconv"
 	"strings"
+	"time"
 
 	"github.com/openebs/jiva/controller"
 	crest "github.com/openebs/jiva/controller/rest"
 	jsync "github.com/openebs/jiva/sync"
 	"github.com/openebs/jiva/types"
+	"github.com/openebs/jiva/verifshim/vtime"
 
 	"verif/harness/kernel"
 )
@@ -145,6 +147,12 @@ func (cl *cluster) step(ev string) {
 	if len(cl.viol) > 0 {
 		return
 	}
+	if cl.cfg.RealMon {
+		cl.settleReal(ev)
+		if len(cl.viol) > 0 {
+			return
+		}
+	}
 	if cl.cfg.Drain {
 		for guardN := 0; guardN < 20; guardN++ {
 			in := cl.internal()
@@ -185,6 +193,33 @@ func (cl *cluster) step(ev string) {
 	}
 	cl.stateOracles(v)
 	cl.cloneOracle()
+}
+
+// waitDetached: a fault that only the monitor path can notice (no I/O in flight) has hit node i's backend: the
+// replica must leave the volume.  The generous deadline turns "never noticed" into a diagnosis.
+func (cl *cluster) waitDetached(ev string, i int) {
+	deadline := time.Now().Add(15 * time.Second)
+	for {
+		listed := true
+		var reps []types.Replica
+		if v, ok := cl.c.VerifViewIfFree(); ok {
+			listed = false
+			reps = v.Replicas
+			for _, r := range v.Replicas {
+				if nodeOf(r.Address) == i {
+					listed = true
+				}
+			}
+		}
+		if !listed {
+			return
+		}
+		if time.Now().After(deadline) {
+			cl.violate("failure-unnoticed", "idle-failure-unnoticed:"+strings.Split(ev, ":")[0], fmt.Sprintf("%s: node %d is still listed 15 s after the fault although the real monitor goroutine and rpc client are running: the replica is never detached and the volume status never re-evaluated; replicas: %v", ev, i, reps))
+			return
+		}
+		time.Sleep(100 * time.Microsecond)
+	}
 }
 
 func (cl *cluster) terr(ev string, err error) {
@@ -465,6 +500,39 @@ func (cl *cluster) apply(ev string) {
 		cl.failXfer = true
 		cl.nFaults++
 		cl.observe("XferFail armed")
+	case "PingOK", "PingF":
+		// monitorPing's ticker fires for the backend of node <i>: the real Ping travels over the rpc connection; PingF:
+		// the replica answers it with an error
+		i := atoi(f[1])
+		b := cl.attachedBE(i)
+		if f[0] == "PingF" {
+			cl.failPing = map[int]bool{i: true}
+			cl.nFaults++
+			cl.opFailed[i] = true
+		}
+		b.tick <- vtime.Now()
+		if f[0] == "PingF" {
+			cl.waitDetached(ev, i)
+		} else {
+			// the answer has been consumed when a second tick is accepted (the goroutine is back in its select)
+			select {
+			case b.tick <- vtime.Now():
+			case <-time.After(10 * time.Second):
+				cl.violate("wedged", "monitor-ping-stuck", fmt.Sprintf("%s: the monitor goroutine of node %d did not come back from a ping that was answered", ev, i))
+			}
+		}
+		cl.failPing = nil
+		cl.observe("%s", ev)
+	case "ConnDrop":
+		// the data connection of node <i>'s backend dies while no I/O is in flight (replica process killed, network cut)
+		i := atoi(f[1])
+		b := cl.attachedBE(i)
+		cl.nFaults++
+		cl.opFailed[i] = true
+		b.sconn.Close()
+		b.cconn.Close()
+		cl.waitDetached(ev, i)
+		cl.observe("%s", ev)
 	case "UnB":
 		// UNMAP of one whole block that holds data, while no replica is rebuilding.  No user snapshot exists in the runs
 		// that have this event, so the range is punched out of every file of the chain: the block reads zeros afterwards.
